@@ -12,7 +12,6 @@ from sa.core import VERIF, AnalysisError
 # (all back ends / all elimination steps share one signature) or documented "not yet implemented".
 UNUSED_OK = {
     ("step_voltage_explicit", "internal_node_inds"): "uniform back-end signature (solver_kwargs is passed to every stepper)",
-    ("step_voltage_explicit", "ncomp_per_branch"): "uniform back-end signature",
     ("_voltage_vectorfield", "par_inds"): "uniform back-end signature; forward Euler refuses branched cells",
     ("_voltage_vectorfield", "child_inds"): "uniform back-end signature; forward Euler refuses branched cells",
     ("_voltage_vectorfield", "solver"): "uniform back-end signature",
